@@ -30,6 +30,7 @@ Has(o, b) == \E k \in Rows(o) : o.rows[k] = b
 Bind_Template == A.ok => /\ Len(A.vn) = Cardinality(Bus) /\ \A b \in Bus : A.vn[b + 1] = Vn(b)
                          /\ \A k \in Rows(A) : A.rows[k] \in Bus
                          /\ Len(A.ikss) = Len(A.rows) /\ Len(A.rk) = Len(A.rows) /\ Len(A.xk) = Len(A.rows)
+                         /\ (Cfg.branch => Len(A.line) = NLine /\ Len(A.thv) = NTrafo /\ Len(A.tlv) = NTrafo)
 
 \* ---- single-run clauses (decided on the primary state of every run) ----------------------------------------------
 \* "for every faulted bus": each requested bus has a result row with a finite ikss
